@@ -25,8 +25,14 @@ TADD = 1000          # the transform adds TADD to the decoded payload (not idemp
 # ----------------------------------------------------------------------------------------------
 # payloads: value id <-> picklable sample of varying type
 # ----------------------------------------------------------------------------------------------
+FALSY = {"none": None, "zero": 0, "false": False, "zerof": 0.0, "empty_str": "", "empty_tuple": (), "list_none": [None],
+         "dict_none": {"k": None}}
+
+
 def payload(v, kinds):
     k = kinds[v % len(kinds)]
+    if k in FALSY:                      # the whole sample is None / falsy: carries no value id
+        return copy.deepcopy(FALSY[k])
     if k == "int":
         return v
     if k == "tuple":
@@ -44,19 +50,45 @@ def payload(v, kinds):
     raise ValueError(k)
 
 
-def decode(p):
-    """payload (possibly wrapped by the transform any number of times) -> value id + TADD * (number of wraps)"""
-    if isinstance(p, tuple) and len(p) == 2 and p[0] == "T!":
-        return TADD + decode(p[1])
-    if isinstance(p, int):
-        return p
-    if isinstance(p, tuple):
-        return p[0]
-    if isinstance(p, dict):
-        return p["x"]
-    if isinstance(p, str):
-        return int(p.split("-")[1])
-    return int(p[0])      # tensor / ndarray
+def _same(a, b):
+    if type(a) is not type(b):
+        return False
+    try:
+        r = a == b
+        if isinstance(r, bool):
+            return r
+        return bool(r.all())
+    except Exception:
+        return False
+
+
+def decode(p, expect=None):
+    """sample (possibly wrapped by the transform any number of times) -> value id + TADD * (number of wraps).
+    `expect` = (value id, sample) the wrapped dataset holds for the accessed index: a sample equal to it decodes to that id
+    (this is how samples without an id in them - None, 0, '', () ... - are recognised); anything else decodes by content,
+    and to -1 when it carries no id."""
+    wraps = 0
+    while isinstance(p, tuple) and len(p) == 2 and isinstance(p[0], str) and p[0] == "T!":
+        wraps += 1
+        p = p[1]
+    if expect is not None and _same(p, expect[1]):
+        return expect[0] + TADD * wraps
+    try:
+        if isinstance(p, bool) or p is None:
+            return -1
+        if isinstance(p, int):
+            return p + TADD * wraps
+        if isinstance(p, tuple) and p and isinstance(p[0], int):
+            return p[0] + TADD * wraps
+        if isinstance(p, dict) and "x" in p:
+            return p["x"] + TADD * wraps
+        if isinstance(p, str) and p.startswith("sample-"):
+            return int(p.split("-")[1]) + TADD * wraps
+        if hasattr(p, "shape"):
+            return int(p[0]) + TADD * wraps
+    except Exception:
+        pass
+    return -1
 
 
 def transform(p):
@@ -208,7 +240,7 @@ class RealCache:
                         s.trace.append([r, "begin", i])
                         try:
                             v = readers[r][idx]
-                            outs[r].append(["val", i, decode(v)])
+                            outs[r].append(["val", i, decode(v, (fvals[i], payload(fvals[i], kinds)))])
                         except KeyError:
                             outs[r].append(["keyerror", i])
                         except Exception as e:  # noqa
@@ -244,7 +276,14 @@ class RealCache:
                 s.wait_parked(timeout)
         for t in ths:
             t.join(timeout)
-        final = sorted([int(k) - BIG, decode(v)] for k, v in self.real_dict.items())
+        final = []
+        for k, v in self.real_dict.items():
+            try:
+                i = int(k) - BIG
+            except Exception:
+                i = -1
+            final.append([i, decode(v, (fvals[i], payload(fvals[i], kinds)) if 0 <= i < len(fvals) else None)])
+        final.sort()
         # a reader's dispose() must act on the shared dict, also as seen by the other readers' objects
         return {"outs": outs, "loads": loads, "tapps": len(tapps), "dict": final, "trace": s.trace, "sched": eff}
 
@@ -299,10 +338,27 @@ def oracle(case, real):
         fail("cache:transform-count", f"{n_gets} accesses but the transform ran {real['tapps']} times", n_gets, real["tapps"])
     # loads
     if len(progs) == 1:
+        # loads of the wrapped dataset per index between two clears: exactly one if the index was accessed, none otherwise
+        segs = [{"acc": set(), "loads": {}}]
+        for ev in real["trace"]:
+            if ev[1] == "clear":
+                segs.append({"acc": set(), "loads": {}})
+            elif ev[1] == "begin":
+                segs[-1]["acc"].add(ev[2])
+            elif ev[1] == "load":
+                segs[-1]["loads"][ev[2]] = segs[-1]["loads"].get(ev[2], 0) + 1
+        for k, sg in enumerate(segs):
+            for i in sorted(sg["acc"] | set(sg["loads"])):
+                want = 1 if i in sg["acc"] else 0
+                got = sg["loads"].get(i, 0)
+                if got != want and not fails:
+                    kind = payload(f[i], case["kinds"])
+                    fail("cache:sequential-loads", f"index {i} (sample {kind!r}) was loaded {got} times from the wrapped dataset in stretch {k} "
+                         f"between clears (accessed: {i in sg['acc']})", want, got)
         exp = expected_loads_sequential(progs[0])
-        if real["loads"] != exp:
-            key = "cache:sequential-loads"
-            fail(key, f"sequential history loaded {real['loads']}, expected (once between clears, again after a clear) {exp}", exp, real["loads"])
+        if real["loads"] != exp and not fails:
+            fail("cache:sequential-loads", f"sequential history loaded {real['loads']}, expected (once between clears, again after a clear) {exp}",
+                 exp, real["loads"])
     else:
         # concurrent: a load of i is redundant-but-allowed only if i was absent at some moment of that access
         tr = real["trace"]
@@ -330,7 +386,9 @@ PROG_PAIRS = [
     [[C, G0], [G0, C]], [[G0, G0, G0], [C, C]], [[G1, G0], [G0, G1]], [[G0], [C]],
 ]
 PROG_TRIPLES = [[[G0, G0], [C], [G0]], [[G0, G1], [G1, C], [G0]], [[G0], [G0], [G0]], [[G0, C], [C, G0], [G0, G0]]]
-KIND_SETS = [["int"], ["int", "tuple", "dict", "str"], ["tuple", "dict"], ["str", "int"]]
+KIND_SETS = [["int"], ["int", "tuple", "dict", "str"], ["tuple", "dict"], ["str", "int"],
+             ["none"], ["none", "int"], ["zero", "false", "zerof", "empty_str"], ["empty_tuple", "list_none", "dict_none", "none"],
+             ["none", "zero", "tuple", "false", "empty_str", "dict", "empty_tuple"]]
 
 
 def mk_case(progs, sched, rng, nidx=None, kinds=None):
@@ -347,7 +405,7 @@ def random_case(rng, max_readers=3, nidx=4, max_ops=5, max_sched=30):
         k = rng.randint(1, max_ops)
         progs.append([["c"] if rng.random() < 0.25 else ["g", rng.randrange(nidx)] for _ in range(k)])
     sched = [rng.randrange(n) for _ in range(rng.randint(0, max_sched))]
-    kinds = rng.choice(KIND_SETS + [["tensor", "int"], ["ndarray", "tuple"]]) if rng.random() < 0.3 else None
+    kinds = rng.choice([["tensor", "int"], ["ndarray", "tuple"], ["tensor", "none"]]) if rng.random() < 0.1 else None
     return mk_case(progs, sched, rng, nidx=nidx, kinds=kinds)
 
 
@@ -505,6 +563,10 @@ class C19(PropertyCheck):
             ex3 = ex3[:8000]
         out += ex + ex3
         nex = len(ex) + len(ex3)
+        # samples that are None / falsy as a whole (a cache must not mistake them for "not cached")
+        for k in FALSY:
+            out.append(mk_case([[G0, G0, G1, G0, C, G0, G0, G1]], [], rng, kinds=[k]))
+            out.append(mk_case([[G0, G0], [G0, C, G0]], [0, 0, 0, 1, 1, 0, 0, 1, 1, 1, 1], rng, kinds=[k]))
         for _ in range(250 if quick else 2000):          # sequential histories
             out.append(random_case(rng, max_readers=1, max_ops=12, max_sched=0))
         for _ in range(450 if quick else 6000):
@@ -517,7 +579,7 @@ class C19(PropertyCheck):
         res.rule = (f"{ncorp} corpus + {nex} schedule-exhaustive cases (all schedules of length {L2} over {len(PROG_PAIRS)} two-reader program sets; "
                     f"schedules of length {L3} over {len(PROG_TRIPLES)} three-reader sets{' (sampled)' if self.tier == 'quick' else ''}; remaining steps drained) "
                     "+ random sequential histories (<= 12 ops, 4 indices) + random concurrent cases (<= 3 readers, 4 indices, <= 5 ops each, "
-                    "schedules <= 30 + drain), payload types int/tuple/dict/str/tensor/ndarray; distinct = (programs, event trace)")
+                    "schedules <= 30 + drain), payload types int/tuple/dict/str/tensor/ndarray and whole-sample None/0/False/0.0/''/()/[None]/{k: None}; distinct = (programs, event trace)")
         res.exhaustive = self.tier == "thorough"
         rc = self._real()
         reals = []
